@@ -552,3 +552,15 @@ def check(model, rep):
     sn = [c for c in ast.walk(load.node) if isinstance(c, ast.Call) and isinstance(c.func, ast.Attribute) and c.func.attr == 'setNames']
     ok = len(sn) == 1 and len(sn[0].args) == 3 and src(sn[0].args[2]) == 'joint_names'
     rep.ob('R13.4', load, 'joint names passed in file order', ok, 'setNames receives %s' % ([src(x) for x in sn[0].args] if sn else '?'))
+
+    # ---------------------------------------------------------------- R13.5
+    # "forward kinematics equals the file's semantics for all joint values inside the limits" is read through Arm.FK: the loaded screws and
+    # home pose are evaluated at the joint vector given (clamped to the limits only) - no other folding of the joint values
+    rep.rule('R13.5', 'Arm.FK evaluates the loaded chain at the joint vector it is given: FKinSpace(home, screws, theta) with theta itself or its clamp to the '
+                      'limits (closure of the loader clauses: joint values inside the file\'s limits are never folded or wrapped before the product of exponentials)')
+    from .c05 import fk_core
+    arm_cls = model.cls(ARM, 'Arm')
+    fk_m = arm_cls.methods.get('FK')
+    if fk_m is None:
+        raise AnalysisError('anchor vanished: Arm.FK')
+    fk_core(rep, 'R13.5', fk_m)
